@@ -43,7 +43,8 @@ class Reporter:
         self.nviol += 1
         if len(self.violations) < int(os.environ.get("VERIF_MAXREPLAY", "40")):
             d = out_dir(self.pid, "replay")
-            path = os.path.join(d, "%s_%03d.json" % (name or "case", self.nviol))
+            import re
+            path = os.path.join(d, "%s_%03d.json" % (re.sub(r"[^A-Za-z0-9_.+:=,-]", "_", name or "case")[:80], self.nviol))
             case_desc = dict(case_desc)
             case_desc["property"] = self.pid
             case_desc["features"] = sorted(feats)
